@@ -32,16 +32,6 @@ def _blank_result(case):
     return case.get('stream') == 'blankres'
 
 
-@known_predicate('C01-write-none')
-def _write_none(case):
-    return case.get('stream') == 'none'
-
-
-@known_predicate('C01-write-equal-other-type')
-def _write_eqtype(case):
-    return case.get('stream') == 'eqtype'
-
-
 STREAMS = ['clean', 'clean', 'clean', 'clean', 'clean', 'loaded', 'stored_clean', 'stored',
            'none', 'eqtype', 'blankres']
 
@@ -71,7 +61,14 @@ def make_compiler(ctx, wb, stream, k):
         results = {i: ref.evaluate(wb.nodes[i]['addr']) for i in wb.formulas()}
         path = os.path.join(ctx.work, f'wb{k}.xlsx')
         wbgen.write_xlsx_with_results(wb, results, path)
-        return ExcelCompiler(filename=path), [], results
+        comp = ExcelCompiler(filename=path)
+        prefix = []
+        if stream == 'stored_clean':
+            # every cell is in the model before the first write
+            for i in range(len(wb.nodes)):
+                comp.evaluate(wb.nodes[i]['addr'])
+                prefix.append([0, i])
+        return comp, prefix, results
     if stream == 'loaded':
         src = ExcelCompiler(excel=wb.to_openpyxl())
         for i in wb.cells():
@@ -97,7 +94,7 @@ def run(ctx):
         "(writes only to cells present in the cell map) x configurations {no-data workbook, xlsx with stored "
         "results, model loaded from yml/json/pkl}; streams: clean (no blank writes, no ==-equal writes, no blank "
         "formula results) and one stream per known defect trigger; distinct = distinct (workbook, history)")
-    nwb = ctx.n(260, 4000)
+    nwb = ctx.n(1400, 20000)
     batch = []       # (case meta, model call)
     os.makedirs(ctx.work, exist_ok=True)
     for k in range(nwb):
@@ -106,10 +103,17 @@ def run(ctx):
         wb = wbgen.gen_workbook(rng, ncells=rng.randrange(5, 11), pool=pool,
                                 blank_results=(stream == 'blankres'))
         if stream == 'blankres':
-            # make sure a range starts with a blank cell now and then
-            for i in wb.inputs()[:2]:
-                if rng.random() < 0.6:
-                    wb.nodes[i]['value'] = None
+            # a range whose first cell is blank, read whole by a formula, with a dependant
+            wb = wbgen.WB()
+            wb.add_input(None)
+            wb.add_input(rng.choice([3, 5, 'b']))
+            for _ in range(rng.randrange(0, 3)):
+                wb.add_input(rng.choice(wbgen.CLEAN_POOL))
+            ri = wb.get_range(1, 2)
+            b = wb.add_formula('=A1:A2', [ri], [2, [0, 0]])
+            wb.add_formula(f'=A{wb.nodes[b]["row"]}+1', [b], [3, 0, [0, 0], [1, 1]])
+            if rng.random() < 0.5:
+                wb.add_formula(f'=A{wb.nodes[b]["row"] + 1}*2', [len(wb.nodes) - 1], [3, 2, [0, 0], [1, 2]])
         try:
             comp, prefix, stored = make_compiler(ctx, wb, stream, k)
         except Exception as exc:     # noqa: BLE001
@@ -187,9 +191,10 @@ def run(ctx):
                 if iv is not None and not same(trim(mv), iv):
                     ctx.divergence(dict(case, step=j), iv, trim(mv), 'Model/Graph.v evaluate = ExcelCompiler.evaluate')
                     break
-                if msnap != isnap:
+                if set(msnap) != set(isnap) or any(not same(msnap[i], isnap[i]) for i in isnap):
                     diff = {i: (isnap.get(i, '<unbuilt>'), msnap.get(i, '<unbuilt>'))
-                            for i in set(isnap) | set(msnap) if isnap.get(i, '<u>') != msnap.get(i, '<u>')}
+                            for i in set(isnap) | set(msnap)
+                            if i not in isnap or i not in msnap or not same(msnap[i], isnap[i])}
                     ctx.divergence(dict(case, step=j), diff, 'see impl',
                                    'Model/Graph.v cache snapshot = ExcelCompiler.cell_map values')
                     break
